@@ -12,7 +12,7 @@ RULE = ('correspondence (extracted model vs real library, both recording targets
         'table Gen/FontTable.v against the real constants: all 292 built-in fonts (10 geometry fields) x index of EVERY mapped character + 12 unmapped ones, '
         'all 14 mapping expansions. search (real built-in fonts only, reference = font.image.pixel() of the cell derived from the public glyph_mapping.index): '
         'p_c14_font = every font x every mapped character + control/non-BMP characters x 3 colour modes, one glyph at a time, plus index = position, '
-        'distinct indices, cell inside the atlas; p_c14_str = random lines x 16 colour/decoration combinations x baselines on random built-in fonts.')
+        'distinct indices, cell inside the atlas; p_c14_str = random lines x 16 colour/decoration combinations x baselines on random built-in fonts; p_c14_synth = the same reference on the synthetic custom fonts (spacing, odd atlas row lengths, cells outside the atlas draw nothing).')
 EXHAUSTIVE = {'quick': False, 'thorough': False}
 ASSUMPTIONS = ['draw_ok: |position| <= 2^28 and x + n*(cw+spacing) <= 2^28; font_ok: all font fields non-negative (u32) with heights/offsets <= 2^28 '
                '(the range in which i32/u32 arithmetic of the implementation cannot wrap or saturate; the model is unbounded Z)',
@@ -179,3 +179,9 @@ def search(tier, rng):
         name, mi = fonts[rng.randrange(len(fonts))]
         x, y = position(rng)
         yield J('p_c14_str', name, *style(rng, k % 16), x, y, rng.randrange(4), lst(text_from(rng, maps[mi][1], 8)))
+    for k in range(n):
+        data = mapping_string(rng)
+        chars = expand(data)
+        f = synth_font(rng, len(chars))
+        x, y = position(rng)
+        yield J('p_c14_synth', *f, *style(rng, k % 16), x, y, rng.randrange(4), rng.randrange(0, len(chars) + 3), lst(data), lst(text_from(rng, chars)))
